@@ -95,6 +95,12 @@ def check_roundtrip(fd, via='file'):
         import tempfile
         with tempfile.TemporaryDirectory(prefix='c07_') as tmp:
             path = os.path.join(tmp, 'x.mid')
+            if len(fd['tracks']) % 2:
+                old_cwd = os.getcwd()
+                os.chdir(tmp)            # relative file name, resolved against the working directory
+                path = 'x.mid'
+            else:
+                old_cwd = None
             junk = mido.MidiFile(type=1, tracks=[mido.MidiTrack([mido.Message('note_on', time=i) for i in range(300)] +
                                                                 [mido.Message('clock')])])
             try:
@@ -110,6 +116,9 @@ def check_roundtrip(fd, via='file'):
                     out.append(fail('filename-attr', f'MidiFile(filename).filename is {back.filename!r}'))
             except Exception as exc:  # noqa: BLE001
                 return [fail('save-raises', f'via filename: {exc!r}', exc=exc_sig(exc), via='filename')]
+            finally:
+                if old_cwd is not None:
+                    os.chdir(old_cwd)
         try:
             if save_bytes(mid) != b:
                 out.append(fail('filename-bytes', 'save(filename) and save(file=) wrote different bytes'))
@@ -381,6 +390,9 @@ def main(ctx):
     ctx.check({'kind': 'roundtrip', 'file': {'type': 1, 'tpb': 480, 'tracks': [big, big[:10]]}}, sample=False)
     ctx.check({'kind': 'roundtrip', 'file': {'type': 1, 'tpb': 96, 'tracks': [[pm] for pm in big[:300]]}}, sample=False)
     ctx.check({'kind': 'roundtrip', 'file': {'type': 2, 'tpb': 1, 'tracks': [[] for _ in range(260)]}}, sample=False)
+    long_track = [{'type': 'control_change', 'channel': i % 16, 'control': i % 128, 'value': (i * 3) % 128, 'time': (i * 7) % 300}
+                  if i % 97 else {'type': 'marker', 'text': f'bar {i}', 'time': 0} for i in range(30000)]
+    ctx.check({'kind': 'roundtrip', 'file': {'type': 0, 'tpb': 960, 'tracks': [long_track]}, 'via': 'filename'}, sample=False)
     if ctx.tier == 'thorough':
         from lib.harness import run_fuzz
         seeds = []
